@@ -11,22 +11,6 @@ only the binary *melter*/token classification uses).
 namespace Jomini.Date
 open Jomini
 
-/-- the token a deserializer passes to the date visitor (`deserialize_any`) -/
-inductive LeafToken where
-  | i32 (v : Int)        -- binary: an `I32` token, `visit_i32`
-  | str (s : Bytes)      -- text: a scalar, `visit_str` / `visit_string`
-  deriving DecidableEq, Repr
-
-/-- date.rs `DateVisitor`: `visit_i32 → Date::from_binary`, `visit_str → Date::parse` -/
-def Date.visit : LeafToken → Out Date
-  | .i32 v => Date.fromBinary v
-  | .str s => Date.parse s
-
-/-- date.rs `DateHourVisitor`: `visit_i32 → DateHour::from_binary`, `visit_str → DateHour::parse` -/
-def DateHour.visit : LeafToken → Out DateHour
-  | .i32 v => DateHour.fromBinary v
-  | .str s => DateHour.parse s
-
 /-- **C10, date leaf**: for every valid `Date` the binary format can express (year ≥ −5000), the
 text rendering (short game format, what the text writer emits) and the binary rendering (the
 `I32` of `to_binary`) both deserialize to that same date. -/
